@@ -51,49 +51,62 @@ def signature(code, s, i):
     return f"agg|{code}|{s.ops[i].split()[0]}"
 
 
-def evaluate(seqs, res, stats, check_model=True):
-    """oracle + model diff over sequences that already ran; returns True if a violation was reported"""
+CODES = {"stuck", "labels", "put-invalid", "served-invalid", "randomness", "wrong-round", "served-not-stored", "latest-not-head",
+         "stream-earlier-round", "own-partial", "other"}
+
+
+def evaluate(seqs, res, stats, check_model=True, codes=None):
+    """property oracle over every sequence first (a failing input beats a divergence), then the model diff;
+    returns True if a violation was reported"""
+    codes = codes or CODES
     for s in seqs:
         if s.flaky:
             stats["flaky"] += 1
             stats.setdefault("flaky_examples", []).append(s.why_skip)
+    for s in seqs:
+        if s.flaky or not s.impl:
             continue
-        o = agg.oracle(s)
+        o = agg.oracle(s, codes)
         if o:
             code, why, i = o
             def same(t, code=code):
-                r = agg.oracle(t)
+                r = agg.oracle(t, codes)
                 return r is not None and r[0] == code
             if not agg.confirm(s, same):
                 stats["unconfirmed"] += 1
                 continue
-            ops = agg.shrink(s.ops, lambda ops: same(agg.rerun(ops)))
+            ops = agg.shrink(s.ops[:i + 1], lambda ops: same(agg.rerun(ops)))
             t = agg.rerun(ops)
-            r = agg.oracle(t)
+            r = agg.oracle(t, codes)
             res.report(signature(code, t, r[2]), {"engine": "agg", "kind": "impl-violates", "ops": ops,
                                                   "observed": [agg.split(x)[0] for x in t.impl], "oracle": r[1],
                                                   "labels": [agg.split(x)[1] for x in t.impl]})
             return True
-        if check_model and s.model is not None:
-            d = agg.diff(s)
-            if d is not None:
-                def diverges(t):
-                    agg.run_model([t])
-                    return agg.oracle(t) is None and agg.diff(t) is not None
-                if not agg.confirm(s, diverges):
-                    stats["unconfirmed"] += 1
-                    continue
-                ops = agg.shrink(s.ops[:d + 1], lambda ops: diverges(agg.rerun(ops)), budget=40)
-                t = agg.rerun(ops)
-                agg.run_model([t])
-                j = agg.diff(t)
-                res.add_violation({"engine": "agg", "kind": "model-impl-diverge", "ops": ops,
-                                   "observed": [agg.split(x)[0] for x in t.impl][j:j + 1] if j is not None else [],
-                                   "expected": t.model[j:j + 1] if j is not None else [],
-                                   "note": "the real node and the Lean node model answer differently; the property oracle accepts the implementation's answers on this sequence"},
-                                  found=False)
-                return True
+    if not check_model:
+        return False
+    for s in seqs:
+        if s.flaky or s.model is None:
+            continue
+        d = agg.diff(s)
+        if d is None:
             stats["validated"] += 1
+            continue
+        def diverges(t):
+            agg.run_model([t])
+            return agg.oracle(t, codes) is None and agg.diff(t) is not None
+        if not agg.confirm(s, diverges):
+            stats["unconfirmed"] += 1
+            continue
+        ops = agg.shrink(s.ops[:d + 1], lambda ops: diverges(agg.rerun(ops)), budget=40)
+        t = agg.rerun(ops)
+        agg.run_model([t])
+        j = agg.diff(t)
+        res.add_violation({"engine": "agg", "kind": "model-impl-diverge", "ops": ops,
+                           "observed": [agg.split(x)[0] for x in t.impl][j:j + 1] if j is not None else [],
+                           "expected": t.model[j:j + 1] if j is not None else [],
+                           "note": "the real node and the Lean node model answer differently; the property oracle accepts the implementation's answers on this sequence"},
+                          found=False)
+        return True
     return False
 
 
